@@ -202,6 +202,7 @@ pub struct Drv<K: Kit> {
     pub last_call_clock_reads: u64,
     pub last_call_v0: u64,
     pub last_call_first_read: Option<u64>,
+    pub prm_build_secs: f64,
 }
 
 pub const MS: u64 = 1_000_000;
@@ -226,6 +227,7 @@ impl<K: Kit> Drv<K> {
             last_call_clock_reads: 0,
             last_call_v0: 0,
             last_call_first_read: None,
+            prm_build_secs,
         })
     }
 
@@ -249,7 +251,14 @@ impl<K: Kit> Drv<K> {
         self.log.borrow_mut().push(ev);
     }
     fn begin_call(&self, name: &'static str) {
-        self.log.borrow_mut().n_valid_call = 0;
+        {
+            let mut l = self.log.borrow_mut();
+            l.n_valid_call = 0;
+            l.timeout_ns = None;
+            l.late_samples = 0;
+            l.worst_late_ns = 0;
+            l.samples_in_call = 0;
+        }
         self.mark(Ev::Call(name));
     }
 
@@ -299,6 +308,7 @@ impl<K: Kit> Drv<K> {
         if virtual_clock {
             let now = oxmpl::verif::now_nanos().unwrap_or(0);
             oxmpl::verif::arm(now);
+            self.log.borrow_mut().timeout_ns = Some((self.prm_build_secs.max(0.0) * 1e9) as u64);
         }
         self.last_call_v0 = oxmpl::verif::now_nanos().unwrap_or(0);
         let planner = &mut self.planner;
@@ -323,6 +333,7 @@ impl<K: Kit> Drv<K> {
         if virtual_clock {
             let now = oxmpl::verif::now_nanos().unwrap_or(0);
             oxmpl::verif::arm(now);
+            self.log.borrow_mut().timeout_ns = Some(timeout_ns);
         } else {
             oxmpl::verif::disarm();
         }
